@@ -301,8 +301,19 @@ def replay(o):
     raise ValueError(kind)
 
 
+from .. import assume as A
+
 INFO = dict(
+    assumptions=A.S_COMMON, trusted_base=A.TRUSTED, min_obligations=500,
+    explanation="C01: contracts on the evaluation chain, callees inlined (each function also has its own contract, so a defect is "
+                "reported at the innermost function whose contract fails).",
     functions=["heavy.BasisFunction.speval_matrix", "heavy.eval_spline_nodes", "heavy.eval_rational_nodes",
                "curves.Curve.eval"],
     level="other",
 )
+
+
+def info(tier, seed, obs):
+    return dict(bounds="tier %s: shapes %s" % (tier, "p<=3 with <=1 distinct interior knot, p<=2 with 2" if tier == "quick"
+                                                else "p<=4 with <=2 distinct interior knots, p<=2 with 3")
+                + "; all multiplicities 1..p+1; parameter in every open span, at every knot, both ends, outside; scalar and 2-D points")
